@@ -150,8 +150,8 @@ def conn_half(ctx, verdict, cov, quick):
                                                        {"Sizes": "{0, 3}", "MaxMsgs": 3, "MaxPings": 0}), True))
     jobs += [(cfg[:-4], cfg, False) for cfg, _ in WEAK]
     from concurrent.futures import ThreadPoolExecutor
-    with ThreadPoolExecutor(max_workers=3) as ex:
-        res = list(ex.map(lambda j: ctx.tlc("C17_mc", j[1], must_pass=j[2], timeout=1500, label=j[0], workers=4), jobs))
+    with ThreadPoolExecutor(max_workers=4) as ex:
+        res = list(ex.map(lambda j: ctx.tlc("C17_mc", j[1], must_pass=j[2], timeout=1500, label=j[0], workers=3), jobs))
     byl = {j[0]: r for j, r in zip(jobs, res)}
     runs = [byl[j[0]] for j in jobs if j[2]]
     # ---- non-vacuity: every weakened spec is refuted; its counterexample becomes an attack schedule
@@ -256,10 +256,17 @@ def run(ctx):
     cov = new_cov()
     only = os.environ.get("C17_ONLY", "")          # development aid: "conn" or "reactors"
     from props import c17_reactors
-    if only != "reactors":
-        conn_half(ctx, verdict, cov, quick)
-    if only != "conn":
-        c17_reactors.hostile_half(ctx, verdict, cov, quick)
+    ctx.spec_copy()
+    # the two halves are independent (TLC-bound / Go-bound): run them side by side
+    from concurrent.futures import ThreadPoolExecutor
+    with ThreadPoolExecutor(max_workers=2) as ex:
+        futs = []
+        if only != "reactors":
+            futs.append(ex.submit(conn_half, ctx, verdict, cov, quick))
+        if only != "conn":
+            futs.append(ex.submit(c17_reactors.hostile_half, ctx, verdict, cov, quick))
+        for f in futs:
+            f.result()
     cov["rule"] = ("connection half: every state of the act-augmented TMMConnSys graphs (deliver: 2 channels, payload 2, "
                    "sizes %s; hostile: every sequence of <= %d hostile packets) reached by replaying its BFS path on real "
                    "MConnections in lock-step, plus simulated behaviours of the 3-message model, the counterexamples of the "
@@ -267,7 +274,12 @@ def run(ctx):
                    "observation is distinct by (event, arguments, projected post-state). hostile half: one real execution "
                    "per (reactor, message kind, field class, peer-state class) of the TLC-enumerated alphabet, distinct by "
                    "(case, outcome)" % ("{0,3,6}" if quick else "{0,1,2,3,5,6}", 1 if quick else 2))
-    cov["exhaustive"] = True
+    truncated = any(c.get("unit") is None for c in cov.get("conn", {}).get("process_crashes", [])) or \
+        any(c.get("unit") is None for p in cov.get("reactors", {}).get("per_reactor", {}).values() for c in p["process_crashes"])
+    # the replay graphs are always replayed completely; the alphabet is executed completely in the thorough tier,
+    # the quick tier executes the selection described in cases_of_reactors_without_harness_or_outside_tier
+    cov["exhaustive"] = (not quick) and not truncated and only == ""
+    cov["exhaustive_within_tier_selection"] = not truncated
     cov["tlc_runs"] = ctx.tlc_stats
     cov["known_findings_reproduced"] = dict(verdict.known)
     rc = verdict.finish()
